@@ -214,6 +214,8 @@ enum Adapter {
     Map(syn::ExprClosure),
     /// `.filter_map(f)`: only as the last adapter before `.collect()`
     FilterMap(syn::ExprClosure),
+    /// `.filter(p)`: only as the last adapter of a `for` loop's iterator
+    Filter(syn::ExprClosure),
     Flatten,
 }
 
@@ -286,6 +288,13 @@ fn parse_iter(e: &Expr, bare_ok: bool) -> Option<Iter> {
                     let other = parse_iter(args[0], true)?;
                     it.adapters.push(Adapter::Zip(Box::new(other)));
                     Some(it)
+                }
+                ("filter", 1) => {
+                    let mut it = parse_iter(&m.receiver, false)?;
+                    match strip_paren(args[0]) {
+                        Expr::Closure(c) => { it.adapters.push(Adapter::Filter(c.clone())); Some(it) }
+                        _ => None,
+                    }
                 }
                 ("filter_map", 1) => {
                     let mut it = parse_iter(&m.receiver, false)?;
@@ -539,6 +548,18 @@ impl Norm {
     }
 
     fn emit_loop_inner(&mut self, it: &Iter, pat: &Pat, body: Vec<Stmt>, sp: Span) -> Option<Vec<Stmt>> {
+        // N2f: `for x in <iter>.filter(|y| P) { B }` == `for x in <iter> { if P[y := &x] { B } }` (std: filter yields exactly the items P accepts, in order)
+        if let Some(Adapter::Filter(c)) = it.adapters.last() {
+            let c = c.clone();
+            let mut inner = it.clone();
+            inner.adapters.pop();
+            let Pat::Ident(pi) = pat else { return None };
+            let x = pi.ident.clone();
+            let (cpat, cstmts, cval) = self.closure_parts(&c)?;
+            self.rule("N2", sp, "for over <iter>.filter(p) -> loop over <iter> with the body guarded by p");
+            let guarded: Stmt = parse_quote!(if { let #cpat = &#x; #(#cstmts)* #cval } { #(#body)* });
+            return self.emit_loop_inner(&inner, pat, vec![guarded], sp);
+        }
         let mut pre: Vec<Stmt> = vec![];
         let mut ads = it.adapters.clone();
         // N1: reversed range
@@ -794,7 +815,7 @@ impl Norm {
                     elem = parse_quote!((#ei, #elem));
                     notes.push("enumerate");
                 }
-                Adapter::Rev | Adapter::Map(_) | Adapter::FilterMap(_) | Adapter::Flatten => return None,
+                Adapter::Rev | Adapter::Map(_) | Adapter::FilterMap(_) | Adapter::Filter(_) | Adapter::Flatten => return None,
             }
         }
         Some((idx, lo, hi, elem, notes.join(",")))
